@@ -66,6 +66,12 @@ class Library:
         if isinstance(blocks, Block):
             blocks = [blocks]
 
+        # Make sure all blocks are in the library before removing any of them,
+        #   such that a failing call leaves the library unchanged.
+        remaining_blocks = list(self._blocks)
+        for block in blocks:
+            remaining_blocks.remove(block)
+
         for block in blocks:
             self._blocks.remove(block)
             if isinstance(block, Entry):
